@@ -8,6 +8,7 @@ from .. import common, instrument as ins, mon1, mon2, w2
 from . import _w2case
 
 ID = "C16"
+KNOWN_CEILING = {'k5_nested_residual': 0.02}   # share of all evaluations a known finding may reach before it counts as a violation again
 LEVEL = "exploration"
 RULE = ("W2 variants with leverage (gross 1-4x, mixed signs) and injected price jumps (x0.15 .. x2.2), flat and nested, all cost models. Oracle on the "
         "recorded histories, the trade log and spy algos in every stack: flagged <=> some recorded root value < 0; never a sub-strategy or a "
